@@ -5,13 +5,14 @@ pub mod c02;
 pub mod c03;
 pub mod c06;
 pub mod c07;
+pub mod c08;
 pub mod c13;
 pub mod c15;
 pub mod c16;
 pub mod c17;
 
 pub fn all_ids() -> Vec<&'static str> {
-    vec!["C01", "C02", "C03", "C06", "C07", "C13", "C15", "C16", "C17"]
+    vec!["C01", "C02", "C03", "C06", "C07", "C08", "C13", "C15", "C16", "C17"]
 }
 
 pub fn build(id: &str) -> Option<Property> {
@@ -21,6 +22,7 @@ pub fn build(id: &str) -> Option<Property> {
         "C03" => Some(c03::property()),
         "C06" => Some(c06::property()),
         "C07" => Some(c07::property()),
+        "C08" => Some(c08::property()),
         "C13" => Some(c13::property()),
         "C15" => Some(c15::property()),
         "C16" => Some(c16::property()),
